@@ -100,4 +100,22 @@ example :
     A.results = [.ok, .err Generated.ECONNRESET, .err Generated.ECONNRESET, .err Generated.ECONNRESET] := by
   decide
 
+
+/-- **ux/uxf.** A failing `ux_send` - EMSGSIZE, EINVAL for an empty message, EAGAIN, EINTR or any other
+kernel errno - leaves counters and state exactly as they were and hands nothing to the kernel, so it is
+never delivered (with `C01_ux_exact_delivery`: only accepted messages are ever queued). -/
+theorem C03_ux_failed_send_no_trace (s : Ux.St) (m : Bytes) (k : Ux.KSend) (e : Nat)
+    (h : (Ux.send s m k).2.1 = .err e) : (Ux.send s m k).1 = s ∧ (Ux.send s m k).2.2 = none :=
+  C17.C17_ux_refused_counts_nothing s m k e h
+
+/-- ux/uxf: the size checks precede the kernel call in every state -/
+theorem C03_ux_size_checks_first (s : Ux.St) (m : Bytes) (k : Ux.KSend)
+    (h : m.length = 0 ∨ m.length > Generated.UX_MAX_MSG) :
+    ∃ e, (Ux.send s m k) = (s, .err e, none) ∧ (e = Framing.EINVAL ∨ e = Framing.EMSGSIZE) := by
+  unfold Ux.send
+  by_cases h1 : m.length > Generated.UX_MAX_MSG
+  · exact ⟨_, by simp [h1], Or.inr rfl⟩
+  · have h2 : m.length = 0 := by omega
+    exact ⟨_, by simp [h1, h2], Or.inl rfl⟩
+
 end XcmModel.C03
